@@ -34,6 +34,9 @@ func c20(c *Ctx) {
 		{"shm", "litefs.DB.shmMu", 1, nil},
 		{"change-set-subscriber", "litefs.ChangeSetSubscriber.mu", 2, nil},
 		{"rwmutex", "litefs.RWMutex.mu", 4, nil},
+		{"file-backup-client", "litefs.FileBackupClient.mu", 1, nil},
+		{"fuse-root-node", "fuse.RootNode.mu", 1, nil},
+		{"fuse-lock-handle", "fuse.LockHandle.haltLockMu", 1, nil},
 	} {
 		c.NoReentry("no-hang/"+m.key+"-mutex-not-reentered", m.mu, m.min,
 			"no function that runs with "+m.mu+" held - by itself or by its caller - calls a function that locks it again",
